@@ -461,3 +461,31 @@ def merge_order(func: ast.AST, name: str) -> list[ast.AST] | None:
         elif isinstance(s_, ast.AugAssign) and isinstance(s_.op, ast.BitOr) and dotted(s_.target) == name:
             out += parts(s_.value)
     return out
+
+
+def accumulated_lists(func: ast.AST) -> list[dict]:
+    """Lists built element by element, in iteration order, whatever the spelling:
+
+    ``xs = [e for t in it]``; ``xs = []`` + ``for t in it: xs.append(e)`` (``e`` possibly through locals of the loop
+    body, which are unfolded); ``for t in it: v = e; xs.append(v)``.  One record per list:
+    ``{"name", "iter", "target", "elements": [expr, ...] (alternatives), "node", "conditional": bool}``.
+    """
+    from gv.dataflow import SymValues
+
+    out = []
+    for s_ in stmts_of(func):
+        if isinstance(s_, ast.Assign) and len(s_.targets) == 1 and isinstance(s_.targets[0], ast.Name) and isinstance(s_.value, ast.ListComp) and len(s_.value.generators) == 1:
+            g = s_.value.generators[0]
+            out.append({"name": s_.targets[0].id, "iter": g.iter, "target": g.target, "elements": [s_.value.elt], "node": s_, "conditional": bool(g.ifs)})
+    sv = None
+    for lp in [s_ for s_ in stmts_of(func) if isinstance(s_, ast.For)]:
+        for c in ast.walk(lp):
+            if isinstance(c, ast.Call) and isinstance(c.func, ast.Attribute) and c.func.attr == "append" and isinstance(c.func.value, ast.Name) and len(c.args) == 1:
+                inner = [x for x in ast.walk(lp) if isinstance(x, ast.For) and x is not lp and any(y is c for y in ast.walk(x))]
+                if inner:
+                    continue  # belongs to a nested loop
+                sv = sv or SymValues(func)
+                els = sv.exprs(c.args[0]) if sv.cfg.has(c) else [c.args[0]]
+                cond = any(sv.cfg.kind[t] == "test" and any(sub is sv.cfg.ast[t] for sub in ast.walk(lp)) for t, _ in branch_conditions(sv.cfg, sv.cfg.node_of(c))) if sv.cfg.has(c) else False
+                out.append({"name": c.func.value.id, "iter": lp.iter, "target": lp.target, "elements": els, "node": c, "conditional": cond})
+    return out
